@@ -183,9 +183,19 @@ func init() {
 		}
 		ins := concInputs(it, im, spec.N)
 		// a deep input: pumping a recursive production pushes the parser stack far beyond its initial capacity
-		if long := ref.NewCFG(it.G).LongSentence(150); long != nil {
-			ins = append(ins, concInput{toks: long})
-			st.add("deep_inputs", 1)
+		// (long: any recursion; deep: nesting / right recursion where the grammar has one, at two different depths so
+		// that whichever comes later on a reused parser is deeper than something seen before)
+		cfg := ref.NewCFG(it.G)
+		seenLong := map[string]bool{}
+		for _, long := range [][]string{cfg.LongSentence(150), cfg.DeepSentence(150), cfg.DeepSentence(330)} {
+			if long != nil && !seenLong[strings.Join(long, " ")] {
+				seenLong[strings.Join(long, " ")] = true
+				ins = append(ins, concInput{toks: long})
+				st.add("deep_inputs", 1)
+				if d := maxStackDepth(cfg, long); d > 100 {
+					st.add("deep_inputs_with_parser_stack_over_100", 1)
+				}
+			}
 		}
 		// the concurrent phase comes FIRST: lazily initialised shared state (a cache filled on first use) is only
 		// written while it is still cold, and a sequential warm-up would hide those writes from the detector
@@ -224,4 +234,13 @@ func init() {
 			}
 		}
 	}
+}
+
+// maxStackDepth: the deepest LR stack reached on toks with the canonical LR(1) tables (0 if they cannot be built).
+func maxStackDepth(c *ref.CFG, toks []string) int {
+	lr, err := c.NewLR(4000)
+	if err != nil {
+		return 0
+	}
+	return ref.Drive(c, lr, toks, false).MaxDepth
 }
